@@ -337,7 +337,10 @@ func c28Cases() []chainCase {
 		blocks []BlockSpec
 		staked int
 	}
-	pres := []pre{{"one-app", nil, 1}, {"full", []BlockSpec{blk(tx("app_stake", "P2", "value", "1000000"))}, 2}, {"none", []BlockSpec{blk(tx("app_unstake", "P1")), {}, {}}, 0}}
+	pres := []pre{{"one-app", nil, 1}, {"full", []BlockSpec{blk(tx("app_stake", "P2", "value", "1000000"))}, 2}, {"none", []BlockSpec{blk(tx("app_unstake", "P1")), {}, {}}, 0},
+		// governance moved the allowance parameters: the allowance of a new stake follows the parameters in force
+		{"base-relays-tripled", []BlockSpec{blk(tx("gov_param", "G", "from", "G", "key", "application/BaseRelaysPerPOKT", "value", `"300"`))}, 1},
+		{"stability-adjusted", []BlockSpec{blk(tx("gov_param", "G", "from", "G", "key", "application/StabilityAdjustment", "value", `"7"`))}, 1}}
 	type req struct {
 		name   string
 		t      TxSpec
@@ -381,7 +384,14 @@ func c28Cases() []chainCase {
 						if rec["tokens"] != fmt.Sprint(q.stake) {
 							return "admitted-with-wrong-stake", desc
 						}
-						allowance := q.stake * 100 / 100 / 1000000 // BaseRelaysPerPOKT 100 (percent) per staked POKT, adjustment 0
+						// BaseRelaysPerPOKT (percent) per staked POKT plus the stability adjustment, as stored when the request runs
+						prm := obsStrMap(r, "params")
+						base, e1 := strconv.ParseInt(strings.Trim(prm["application/BaseRelaysPerPOKT"], `"`), 10, 64)
+						adj, e2 := strconv.ParseInt(strings.Trim(prm["application/StabilityAdjustment"], `"`), 10, 64)
+						if e1 != nil || e2 != nil {
+							return "harness:params", fmt.Sprintf("cannot read the allowance parameters of the reference run: %v", prm)
+						}
+						allowance := q.stake*base/100/1000000 + adj
 						if rec["maxrelays"] != fmt.Sprint(allowance) {
 							return "relay-allowance", desc + fmt.Sprintf("; allowance derived from the stake is %d", allowance)
 						}
@@ -412,13 +422,21 @@ func c28Cases() []chainCase {
 		{"with-chains", tx("app_stake", "P1", "app", "NEW", "value", "0", "chains", "0002"), "P1", "NEW", false},
 	} {
 		x := x
-		for _, withP2 := range []bool{false, true} {
-			withP2 := withP2
-			var pre []BlockSpec
-			if withP2 {
-				pre = []BlockSpec{blk(tx("app_stake", "P2", "value", "1000000"))}
-			}
-			name := fmt.Sprintf("transfer/%s/%s", x.name, boolStr(withP2, "full", "one-app"))
+		// application-set / parameter states before the transfer; in the last three the allowance formula no longer
+		// yields what P1's record holds (governance moved BaseRelaysPerPOKT or StabilityAdjustment after P1 staked):
+		// a pure key transfer still keeps the recorded allowance
+		for _, st := range []struct {
+			name string
+			pre  []BlockSpec
+		}{
+			{"one-app", nil},
+			{"full", []BlockSpec{blk(tx("app_stake", "P2", "value", "1000000"))}},
+			{"base-relays-halved", []BlockSpec{blk(tx("gov_param", "G", "from", "G", "key", "application/BaseRelaysPerPOKT", "value", `"50"`))}},
+			{"base-relays-tripled", []BlockSpec{blk(tx("gov_param", "G", "from", "G", "key", "application/BaseRelaysPerPOKT", "value", `"300"`))}},
+			{"stability-adjusted", []BlockSpec{blk(tx("gov_param", "G", "from", "G", "key", "application/StabilityAdjustment", "value", `"7"`))}},
+		} {
+			pre := st.pre
+			name := fmt.Sprintf("transfer/%s/%s", x.name, st.name)
 			cases = append(cases, chainCase{Name: name, Class: "transfer", Env: env, Want: []string{"balances", "apppool"},
 				Ref: append(append([]BlockSpec{}, pre...), BlockSpec{}), Subject: append(append([]BlockSpec{}, pre...), blk(x.t)),
 				Oracle: func(r, s JobResult) (string, string) {
